@@ -965,7 +965,12 @@ class Watcher(object):
 
         if not self.is_stopped():
             if len(self.processes) < self.numprocesses:
-                self.reap_processes()
+                # top up: only what has died is collected, reap_process
+                # waits for the process it is given to be dead and the
+                # workers still running are not going to die
+                for process in list(self.processes.values()):
+                    if process.status in (DEAD_OR_ZOMBIE, UNEXISTING):
+                        self.reap_process(process.pid)
                 yield self.spawn_processes()
             return
 
